@@ -117,6 +117,17 @@ Definition run_gas (fields : list str) : str :=
   | _ => lit "BADCASE"
   end.
 
+(* ["genc"; value]: _extract_enclosing_text as GENERATED from the source; output head U+0001 value U+0001 tail *)
+Definition run_genc (fields : list str) : str :=
+  match fields with
+  | [_; val] =>
+      match G_fn_sir.gen__extract_enclosing_text (fun _ _ => Exc Unsupported) (S (length val)) (VStr (zs val)) (VStr []) (VStr []) with
+      | Normal (VTuple [VStr h; VStr v; VStr t]) => map Z.to_N h ++ [1] ++ map Z.to_N v ++ [1] ++ map Z.to_N t
+      | _ => lit "ERR"
+      end
+  | _ => lit "BADCASE"
+  end.
+
 (* ["gjenc"; plain; salt] / ["gjdec"; crypt]: the $9$ codec as GENERATED from utils/juniper_secrets.py (gen/G_fn_jun.v) *)
 Require Import G_fn_jun.
 Definition no_call (f a : pyval) : PyLib.res := Exc TypeError.
